@@ -116,6 +116,8 @@ func c07Class(spec TokSpec, stage, codec string) string {
 			hints = append(hints, "dagjson-integral-float")
 		case codec == "json" && (name == "args" || name == "meta") && strings.TrimPrefix(v, "k=") == "str-latin1":
 			hints = append(hints, "dagjson-non-utf8-string")
+		case codec == "json" && (name == "args" || name == "meta") && strings.TrimPrefix(v, "k=") == "map-slash":
+			hints = append(hints, "dagjson-reserved-slash-map")
 		}
 	}
 	if spec.Alg == "p384" || spec.Alg == "p521" {
